@@ -53,6 +53,7 @@ static Verdict run(const Case &c) {
         for (auto &e : t1[i]) {
             if (e.kind == VE_SLEEP) continue;
             std::string err = wellformed(e.data, h.mtu, own);
+            if (!err.empty() && (h.fail & VF_MAC)) err = wellformed(e.data, h.mtu, ZEROMAC);   // address getter fails: the all-zero address is what the configuration determines
             if (!err.empty()) { v.fail(fmt("step %zu: transmitted frame is not well-formed: %s [%s]", i, err.c_str(), hex(e.data).substr(0, 96).c_str())); break; }
             opcodes.insert(e.data[17]);
             ntx++;
@@ -72,6 +73,12 @@ static Verdict run(const Case &c) {
         if (!err.empty()) v.fail(fmt("step %zu: %s (received %s...)", i, err.c_str(), hex(frames[i]).substr(0, 72).c_str()));
         if (c.ops[i].kind == K_RAW || c.ops[i].kind == K_SHELL) noise = true;
     }
+    {   // digest of the whole transmit trace: compared between two builds of the core that differ only in what an uninitialised
+        // automatic variable reads (0xAA.. versus 0x00..), see engines.c02_autoinit_post
+        uint64_t hsh = 1469598103934665603ULL;
+        for (auto &step : t1) { uint64_t d = ev_digest(step); hsh = fnv(&d, 8, hsh); }
+        v.trace_digest = hsh;
+    }
     v.nontrivial = ntx >= 3 && opcodes.size() >= 2;
     for (int o : opcodes) v.cls(fmt("tx-opcode-%d", o));
     if (noise) v.cls("has-noise-or-mutant");
@@ -82,6 +89,13 @@ static Verdict run(const Case &c) {
 int main(int argc, char **argv) {
     Args a = parse_args(argc, argv);
     if (!a.replay.empty()) return replay_case(a, run);
+    if (!a.digest_of.empty()) {
+        std::string t; Case c;
+        if (!read_file(a.digest_of, t) || !Case::from_text(t, c)) return 2;
+        Verdict v = run(c);
+        printf("TRACE-DIGEST %016llx %s\n", (unsigned long long)v.trace_digest, v.ok ? "ok" : v.why.c_str());
+        return 0;
+    }
     Current::install(a.failing);
     Evidence ev;
     ev.rule = "configurations (MTU, wired/Wi-Fi, names 0..40 bytes) x frame histories mixing valid session traffic, templated/mutated/truncated frames and raw noise; "
@@ -93,6 +107,11 @@ int main(int argc, char **argv) {
     // mix: history ops + raw frames from the template/mutation generator
     auto gen = rc::gen::exec([w] {
         HCfg h = *hg::cfg_gen();
+        if (*gx::chance(25)) {   // part of the configuration: platform getters that report failure (the answer must still be determined by configuration + frames)
+            static const int64_t bits[] = {VF_MAC, VF_IFTYPE, VF_IPV4, VF_IPV6, VF_SPEED, VF_BSSID, VF_SSID, VF_RATE, VF_RSSI, VG_HOSTNAME, VG_ICON, VG_FRIENDLY, VG_HWID};
+            int nf = *gx::range<int>(1, 3);
+            for (int i = 0; i < nf; i++) h.fail |= (uint32_t)bits[*gx::range<int>(0, 12)];
+        }
         Case c;
         h.to_case(c);
         Mac own = h.ownmac();
@@ -105,7 +124,7 @@ int main(int argc, char **argv) {
     });
     bool ok = true;
     // deterministic family: more distinct observations than the responder may retain, then the mapper drains them with Queries
-    {
+    if (a.dump_index < 0) {
         long k = 0;
         for (size_t mtu : {(size_t)576, (size_t)1500, (size_t)1514})
             for (int64_t n : {1020, 1030, 1100, 2100}) {
@@ -122,7 +141,9 @@ int main(int argc, char **argv) {
                 if (!v.ok) { write_file(a.failing, "# c02-flood-drain: " + v.why + "\n" + c.to_text()); fprintf(stderr, "FAIL part=c02-flood-drain %s\n", v.why.c_str()); ok = false; }
             }
     }
+    if (a.dump_index >= 0) ok = true;
     if (ok) ok = run_cases(a, ev, "c02-histories", a.n(40000, 400000), 100, gen, run);
+    if (a.dump_index >= 0) return 0;
     ev.write(a.out);
     return ok ? 0 : 1;
 }
